@@ -168,8 +168,13 @@ func LoadEngine(prop, tier string, seed int64) *Engine {
 	e := &Engine{tier: tier, seed: seed, prop: prop, targets: map[*ssa.Package]bool{}, prims: map[*ssa.Function]bool{},
 		coverSeen: map[string]bool{}, unknowns: map[string]int{}, solverErrs: map[string]int{},
 		maxGoroutines: 400, maxSteps: 4000000, maxDepth: 400, timeoutMs: 60000}
+	e.schedBudget = 2
 	if tier == "thorough" {
 		e.timeoutMs = 300000
+		e.schedBudget = 3
+	}
+	if s := os.Getenv("POLYSYM_SCHED_BUDGET"); s != "" {
+		fmt.Sscan(s, &e.schedBudget)
 	}
 	e.findings = loadFindings()
 	e.harnessFiles = findHarnessFiles(prop)
